@@ -2,6 +2,7 @@
    result per output line.  Unknown commands abort (never a default). *)
 open Model
 open Conv
+open Conn_glue
 
 let pr = Printf.sprintf
 
@@ -101,6 +102,69 @@ let c07 (name : string) (shape : int) (bs : n list) : string =
 
 let handle (w : string list) : string =
   match w with
+  | ["slsend"; fn; body; ent; cmd; lun; req; script] ->
+      show_loop (sessionless_send (op_of fn body ent cmd) (ni lun) (request_of req) (script_of script))
+  | ["sssend"; integ; k1; aeskey; local; remote; seq0; ivs; fn; body; ent; cmd; lun; req; script] ->
+      (match mk_session (ni integ) (bytes_of_hex k1) (bytes_of_hex aeskey) (nbig local) (nbig remote) with
+       | Some s -> show_loop (session_send s (nbig seq0) (List.map bytes_of_hex (split_list ivs))
+                                (op_of fn body ent cmd) (ni lun) (request_of req) (script_of script))
+       | None -> "nosession")
+  | ["hs"; user; pw; kg; priv; lookup; auth; integ; conf; random; sc1; sc2; sc3] ->
+      let o = { so_user = bytes_of_hex user; so_password = bytes_of_hex pw; so_kg = bytes_of_hex kg;
+                so_priv = ni priv; so_lookup = (lookup = "1") } in
+      let su = { su_auth = ni auth; su_integ = ni integ; su_conf = ni conf } in
+      let (sent, r) = new_session o su (bytes_of_hex random) (script_of sc1) (script_of sc2) (script_of sc3) in
+      (match r with
+       | Inl e -> Printf.sprintf "ok local=%d remote=%d sik=%s k1=%s k2=%s aes=%s sent=%s"
+                    (int_of_n e.es_local_id) (int_of_n e.es_remote_id) (hex_of_bytes e.es_sik) (hex_of_bytes e.es_k1)
+                    (hex_of_bytes e.es_k2) (hex_of_bytes e.es_aes_key) (hexlist sent)
+       | Inr e -> Printf.sprintf "err %s sent=%s" (hs_err e) (hexlist sent))
+  | ["determine"; desired; advertised] ->
+      let su x = match String.split_on_char '/' x with
+        | [a; i; c] -> { su_auth = ni a; su_integ = ni i; su_conf = ni c } | _ -> failwith "bad suite" in
+      (match determine (List.map su (split_list desired)) (List.map su (split_list advertised)) with
+       | Chosen (s, d) -> Printf.sprintf "%d/%d/%d discovery=%b" (int_of_n s.su_auth) (int_of_n s.su_integ) (int_of_n s.su_conf) d
+       | NoSupportedSuite -> "nosupported")
+  | ["accept"; integ; conf; k1; k2; console; bmcid; dg] ->
+      (match Bmc.accept (mk_active (ni integ) (ni conf) (bytes_of_hex k1) (bytes_of_hex k2) (nbig console) (nbig bmcid)) (bytes_of_hex dg) with
+       | Some ((iv, seq), r) -> Printf.sprintf "ok iv=%s seq=%d %s" (hex_of_bytes iv) (int_of_n seq)
+                                  (String.concat " " (List.map tok_str (show_lanreq r)))
+       | None -> "reject")
+  | ["specsl"; dg] ->
+      (match spec_sessionless (bytes_of_hex dg) with
+       | Some ts -> "ok " ^ String.concat " " (List.map tok_str ts) | None -> "reject")
+  | ["specsetup"; dg] ->
+      (match spec_setup (bytes_of_hex dg) with
+       | Some (((pt, id), seq), p) -> Printf.sprintf "ok %d %d %d %s" (int_of_n pt) (int_of_n id) (int_of_n seq) (hex_of_bytes p)
+       | None -> "reject")
+  | ["specbody"; kind; h] ->
+      (match SpecParse.request_body (kind_of_name kind) (bytes_of_hex h) with
+       | Some r -> "ok " ^ String.concat " " (List.map tok_str (show_request r)) | None -> "reject")
+  | ["showreq"; req] ->
+      let r = request_of req in
+      Printf.sprintf "%s wf=%b" (String.concat " " (List.map tok_str (show_request r))) (SpecParse.wf_request r)
+  | ["serreq"; req] ->
+      (match ser_request (request_of req) [] with Ok b -> "ok " ^ hex_of_bytes b | Err -> "err" | Fault -> "fault")
+  | ["bmc_rakp"; auth; integ; conf; pw; kg; guid; console; bmcid; rm; rc; role; name] ->
+      (* the specification's BMC: keys and codes from its own view of the exchange *)
+      let cfg = { Bmc.users = [((bytes_of_hex name, bytes_of_hex pw), n_of_int 15)]; Bmc.kg = bytes_of_hex kg; Bmc.guid = bytes_of_hex guid } in
+      let p = { Bmc.p_console_id = nbig console; Bmc.p_bmc_id = nbig bmcid; Bmc.p_auth = ni auth; Bmc.p_integ = ni integ; Bmc.p_conf = ni conf } in
+      let r = ni role in
+      let nm = bytes_of_hex name in
+      let m1 = [n_of_int 0; n_of_int 0; n_of_int 0; n_of_int 0] @ put_le32 (nbig bmcid) @ bytes_of_hex rm
+               @ [r; n_of_int 0; n_of_int 0; n_of_int (List.length nm)] @ nm in
+      (match Bmc.rakp1 cfg p m1 (bytes_of_hex rc) with
+       | Some (r2, Some h) ->
+           let kuid = h.Bmc.h_kuid in
+           let user = [r; n_of_int (List.length nm)] @ nm in
+           let code3 = hmac_alg (ni auth) kuid (bytes_of_hex rc @ put_le32 (nbig console) @ user) in
+           let m3 = [n_of_int 0; n_of_int 0; n_of_int 0; n_of_int 0] @ put_le32 (nbig bmcid) @ code3 in
+           (match Bmc.rakp3 cfg h m3 with
+            | Some (r4, Some a) -> Printf.sprintf "ok rakp2=%s rakp4=%s sik=%s k1=%s k2=%s" (hex_of_bytes r2) (hex_of_bytes r4)
+                                     (hex_of_bytes a.Bmc.a_sik) (hex_of_bytes a.Bmc.a_k1) (hex_of_bytes a.Bmc.a_k2)
+            | _ -> "rakp3fail")
+       | Some (r2, None) -> "rakp1err " ^ hex_of_bytes r2
+       | None -> "rakp1reject")
   | ["c07"; layer; shape; h] -> c07 layer (int_of_string shape) (bytes_of_hex h)
   | ["cbcenc"; key; iv; pt] ->
       hex_of_bytes (cbc_encrypt (aes_enc (bytes_of_hex key)) (bytes_of_hex iv) (bytes_of_hex pt))
